@@ -74,6 +74,7 @@ class MapIter(Opaque):
         self.items = items  # list of entries (shared lists from AssocMap) or detached [key, val, present]
         self.by_ref = by_ref
         self.pos = 0
+        self.proj = None     # 'values' / 'keys': iterate over one side only (by reference)
 
     def on_drop(self, ex, st):
         if not self.by_ref:
@@ -135,7 +136,41 @@ def find_entry(ex, st, carry, mref_idx, key_of):
     return out
 
 
-def build_error(ex, selector_ty, ctx):
+_ERR_VARIANT_FIELDS = {}
+
+
+def err_variant_fields(prog, variant):
+    """field names of a struct-like errors::Error variant, scraped from src/errors.rs (None if the file cannot be read that way)"""
+    key = id(prog)
+    if key not in _ERR_VARIANT_FIELDS:
+        tab = {}
+        try:
+            src = prog.src('src/errors.rs')
+            m = re.search(r'pub enum Error\s*\{', src)
+            depth, i = 0, m.end() - 1
+            start = i
+            while True:
+                if src[i] == '{':
+                    depth += 1
+                elif src[i] == '}':
+                    depth -= 1
+                    if depth == 0:
+                        break
+                i += 1
+            body = re.sub(r'//[^\n]*', '', src[start + 1:i])
+            body = re.sub(r'#\[[^\]]*\]', '', body, flags=re.S)
+            for mm in re.finditer(r'(\w+)\s*\{([^}]*)\}', body):
+                tab[mm.group(1)] = [f.split(':')[0].strip() for f in mm.group(2).split(',') if ':' in f]
+        except Exception:
+            tab = None
+        _ERR_VARIANT_FIELDS[key] = tab
+    tab = _ERR_VARIANT_FIELDS[key]
+    return None if tab is None else tab.get(variant, [])
+
+
+def build_error(ex, selector_ty, ctx, source=None):
+    """the errors::Error value a snafu context selector builds; `source` (the underlying error of .context()) goes into the
+    variant's `source` field, the selector's own fields fill the others in declaration order"""
     name = base_type(selector_ty).split('::')[-1]
     if not name.endswith('Snafu'):
         raise Unsupported('snafu selector ' + selector_ty)
@@ -147,6 +182,16 @@ def build_error(ex, selector_ty, ctx):
         raise Unsupported('no Error variant for selector ' + name)
     idx = vs.index(vname)
     fields = dict(ctx.fields) if isinstance(ctx, Agg) else {}
+    names = err_variant_fields(getattr(ex, 'prog', None), vname) if getattr(ex, 'prog', None) is not None else None
+    if source is not None and names and 'source' in names:
+        sel_fields, fields, j = fields, {}, 0
+        for i, n_ in enumerate(names):
+            if n_ == 'source':
+                fields[i] = source
+            else:
+                if j in sel_fields:
+                    fields[i] = sel_fields[j]
+                j += 1
     return Enum(idx, {idx: Agg(fields, 'errors::Error::' + vname)}, 'errors::Error')
 
 
@@ -251,6 +296,15 @@ def common_summaries():
                 e[2] = z3.BoolVal(False)
         else:
             it = MapIter(m.entries, True)
+        return [(st, it)]
+
+    @reg(r'^HashMap::<.*>::(values|keys|values_mut)$')
+    def hm_values(ex, st, fn, argv):
+        m = deref(ex, st, argv[0])
+        if not isinstance(m, AssocMap):
+            return NotImplemented
+        it = MapIter(m.entries, True)
+        it.proj = 'keys' if fn.endswith('keys') else 'values'
         return [(st, it)]
 
     @reg(r'^HashMap::<.*>::is_empty$')
@@ -420,7 +474,7 @@ def common_summaries():
             outs.append((s, Unit()))
         return outs
 
-    @reg(r'<std::collections::hash_map::(Drain|Iter)<.*> as Iterator>::next$')
+    @reg(r'<std::collections::hash_map::(Drain|Iter|Values|ValuesMut|Keys)<.*> as Iterator>::next$')
     def map_next(ex, st, fn, argv):
         outs = []
         pending = [(st, argv)]
@@ -436,7 +490,11 @@ def common_summaries():
                 if truth:
                     it2 = deref(ex, s2, c2[0])
                     e2 = it2.items[it2.pos - 1]
-                    if it2.by_ref:
+                    if it2.proj == 'values':
+                        outs.append((s2, mk_option(Ref(e2[1]))))
+                    elif it2.proj == 'keys':
+                        outs.append((s2, mk_option(Ref(Cell(e2[0], 'key')))))
+                    elif it2.by_ref:
                         outs.append((s2, mk_option(Agg({0: Ref(Cell(e2[0], 'key')), 1: Ref(e2[1])}, 'tuple'))))
                     else:
                         outs.append((s2, mk_option(Agg({0: e2[0], 1: e2[1]}, 'tuple'))))
@@ -500,7 +558,7 @@ def common_summaries():
         sel = re.search(r'context::<([^,]+(?:<[^>]*>)?),', fn).group(1)
         outs = []
         for (s, c, ok) in ex.fork_on(st, r.disc_bv() == 0, (r, argv[1])):
-            outs.append((s, Enum(0, {0: c[0].payloads.get(0, Agg({0: Unit()}))}, 'Result') if ok else mk_err(build_error(ex, sel, c[1]))))
+            outs.append((s, Enum(0, {0: c[0].payloads.get(0, Agg({0: Unit()}))}, 'Result') if ok else mk_err(build_error(ex, sel, c[1], source=(c[0].payloads[1].fields.get(0) if 1 in c[0].payloads else None)))))
         return outs
 
     @reg(r'ResultExt<.*>>::with_context::<')
@@ -513,7 +571,7 @@ def common_summaries():
                 outs.append((s, Enum(0, {0: c[0].payloads.get(0, Agg({0: Unit()}))}, 'Result')))
             else:
                 e = c[0].payloads.get(1, Agg({0: Unit()})).fields.get(0, Unit())
-                outs.append((s, ('CALL', c[1], [Ref(Cell(e, 'src-err'))], ('custom', lambda ex_, st_, rv, sel=sel: mk_err(build_error(ex_, sel, rv))))))
+                outs.append((s, ('CALL', c[1], [Ref(Cell(e, 'src-err'))], ('custom', lambda ex_, st_, rv, sel=sel, e=e: mk_err(build_error(ex_, sel, rv, source=e))))))
         return outs
 
     @reg(r'Snafu(<.*>)?::fail::<|Snafu(<.*>)?::fail$|Snafu::<.*>::fail::<')
